@@ -87,7 +87,22 @@ VALID = {
     "FuzzyOr": [("InFieldNames", "[F, G]")], "FuzzyAnd": [("InFieldNames", "[F, G]")], "FuzzyXOr": [("InFieldNames", "[F, G]")],
     "FuzzyNot": [("InFieldName", "F")], "CvtFromFuzzy": [("InFieldName", "F"), ("TrueThreshold", "10"), ("FalseThreshold", "0")],
 }
-KINDS = ["5", "2.5", "abc", '"quoted text"', "[1, 2]", "[A, B]", "[F]", "[k: v]", "[]", "true", "A", "F", "W", "Nope", "d.csv", "[[A], [B]]", "Float", "-3"]
+KINDS = ["5", "2.5", "abc", '"quoted text"', "[1, 2]", "[A, B]", "[F]", "[k: v]", "[A: B]", "[]", "true", "A", "F", "W", "Nope", "d.csv", "[[A], [B]]", "Float", "-3"]
+
+
+def container_mismatch(param, raw_text):
+    """the clear-cut part of well-formedness, stated without looking at the cleaners: a list where a scalar is declared, a scalar
+    or a dictionary where a list is declared, anything but a dictionary (or []) where a dictionary is declared"""
+    from mpilot import params as P
+    t = raw_text.strip()
+    shape = "dict" if t.startswith("[") and ":" in t else ("list" if t.startswith("[") else "scalar")
+    if type(param) is P.ListParameter:
+        return shape != "list"
+    if type(param) is P.TupleParameter:
+        return not (shape == "dict" or t == "[]")
+    if type(param) in (P.NumberParameter, P.BooleanParameter, P.PathParameter, P.DataTypeParameter, P.ResultParameter, P.StringParameter):
+        return shape != "scalar"
+    return False
 
 
 def render_nodes(nodes, rnd=None):
@@ -429,6 +444,12 @@ def main():
                 what, obs["executed"][:5], obs["new_files"]), "replay": replay})
         if expect is None and obs["cls"] in STATIC:
             fails.append({"sig": "C12:rejected-well-formed:%s" % obs["cls"], "what": "a well-formed model was rejected: %s %s" % (what, str(obs["exc"]).strip().splitlines()[0][:120]), "replay": replay})
+        if kind == "matrix":
+            decl = lib[extra["command"]].inputs.get(extra["parameter"])
+            if decl is not None and container_mismatch(decl, extra["raw"]) and obs["cls"] not in STATIC and obs["cls"] != "SyntaxError":
+                fails.append({"sig": "C12:accepted-ill-formed:%s" % type(decl).__name__,
+                              "what": "%s = %s was given for the %s of %s and the model was not rejected by validation (outcome: %s, executed %r, files %r)" % (
+                                  extra["parameter"], extra["raw"], type(decl).__name__, extra["command"], what, obs["executed"][:5], obs["new_files"]), "replay": replay})
         if expect not in (None, "?"):
             if obs["cls"] != expect:
                 fails.append({"sig": "C12:wrong-or-no-rejection:%s" % kind, "what": "a model with the single fault '%s' should be rejected with %s but the outcome was %s (executed %r, files %r)" % (
